@@ -5,7 +5,7 @@ import IbModel.Generated.Tables
 Transliteration of `src/io/cloud/utils.rs` (`retry_with_backoff`, `with_timeout`, `batch_in_chunks`,
 `paginate`) and of the composition wrappers of `src/helpers/cloud.rs` (`run_with_retry`,
 `run_with_timeout_and_retry`, `OperationBuilder::execute`, `CloudIOExecutor::execute`,
-`run_batch_operation`, `run_paginated_operation`, `run_cloud_io_batch`, …).
+`run_batch_operation`, `run_paginated_operation`, `run_cloud_io_batch`, `run_parallel`, `run_with_context`, …).
 
 Conventions
 * A Rust `FnMut() -> CloudResult<T>` is a **script**: the list of outcomes the closure produces on
@@ -16,7 +16,11 @@ Conventions
 * The set of transient (retryable) error kinds is **not** written here: it is
   `IB.Generated.transientKinds`, printed from the running code on every run.
 * The wall clock is a `Nat` supplied by the caller (milliseconds): every call of the operation has a
-  scripted duration, every back-off sleep lasts its delay.
+  scripted duration, every back-off sleep lasts its delay. `sleeps` are the values of `delay_ms` at the
+  sleep statement (`utils.rs:116-117`: the `on_sleep` hook argument and, on the next line, the argument of
+  `Duration::from_millis` handed to `thread::sleep`). That the REAL wait between two attempts is that long
+  (never shorter, and not longer beyond scheduling noise) is not a statement about this model; the harness
+  measures it on the running code (`harness/src/c18.rs`, gap oracles).
 
 `Legacy.*` is the code as it was at the pinned commit (before the `fix:` commit for chunk size 0).
 -/
@@ -88,7 +92,7 @@ structure RetryResult (α : Type) where
   attempts : Nat
   /-- what `retry_with_backoff` returned; `none` = the script ran out (the loop would call again) -/
   outcome : Option (Res α)
-  /-- the delays passed to `thread::sleep`, in order -/
+  /-- the values of `delay_ms` at each `thread::sleep(Duration::from_millis(delay_ms))`, in order -/
   sleeps : List Nat
 
 /-- The `loop { attempt += 1; match operation() … }` of `retry_with_backoff`. -/
@@ -326,7 +330,9 @@ structure BatchConfig where
   parallel : Bool
 
 /-- `run_batch_operation(items, config, processor) { batch_in_chunks(items, config.chunk_size, processor) }`
-    (`:268`; `config.parallel` is not read) -/
+    (`:268`; `config.parallel` is not read — the harness generates both values of the flag and the driver
+    passes the generated value here, so an implementation that starts reading it is compared with this
+    definition on `parallel = true` as well) -/
 def runBatchOperation {α β : Type} (items : List α) (cfg : BatchConfig) (f : Nat → List α → Res (List β)) :
     List (List α) × Res (List β) :=
   batchInChunks items cfg.chunkSize f
@@ -338,5 +344,57 @@ def runPaginatedOperation {α : Type} (c : PageConfig) (script : List (Res (List
 /-- `run_cloud_io_paginated(config, fetch_page) { paginate(config, fetch_page) }` (`:577`) -/
 def runCloudIoPaginated {α : Type} (c : PageConfig) (script : List (Res (List α × Bool))) : PageResult α :=
   paginate c script
+
+/-! ## `run_parallel` (`:196`)
+
+`operations.into_iter().map(|op| op()).collect::<CloudResult<Vec<T>>>()`. Every operation is an `FnOnce`
+(it can be called at most once), so the "script" is simply the outcome of operation `i` when it is called.
+`collect` into a `Result` pulls the mapped iterator one element at a time and stops pulling at the first
+`Err`: the code that exists is SEQUENTIAL (whatever the name and the doc comment say) and the values
+obtained before the failure are dropped. -/
+
+structure ParResult (α : Type) where
+  /-- indices of the operations that were invoked, in invocation order -/
+  calls : List Nat
+  outcome : Res (List α)
+
+def parLoop {α : Type} : (i : Nat) → List (Res α) → ParResult α
+  | _, [] => ⟨[], .ok []⟩
+  | i, .error e :: _ => ⟨[i], .error e⟩
+  | i, .ok v :: rest =>
+    let r := parLoop (i + 1) rest
+    ⟨i :: r.calls, match r.outcome with | .ok vs => .ok (v :: vs) | .error e => .error e⟩
+
+def runParallel {α : Type} (ops : List (Res α)) : ParResult α := parLoop 0 ops
+
+/-! ## `OperationContext` / `run_with_context` (`:417`, `:454`)
+
+`start_time: Instant` is not modelled (a time stamp; `elapsed()` is never compared). `retry_count: u32` is a
+`Nat` (`increment_retry` is `+= 1`; 2³² increments are out of reach). `metadata: HashMap<String, String>` is an
+association list with `insert` = replace-or-add; it is printed sorted by key. -/
+
+structure OperationContext where
+  operationName : String
+  retryCount : Nat
+  metadata : List (String × String)
+
+def OperationContext.new (name : String) : OperationContext := ⟨name, 0, []⟩
+
+/-- `self.metadata.insert(key, value)` -/
+def OperationContext.addMetadata (c : OperationContext) (k v : String) : OperationContext :=
+  { c with metadata := c.metadata.filter (fun p => p.1 != k) ++ [(k, v)] }
+
+/-- `self.retry_count += 1` -/
+def OperationContext.incrementRetry (c : OperationContext) : OperationContext :=
+  { c with retryCount := c.retryCount + 1 }
+
+/-- `let result = operation(&mut context)?; Ok((result, context))`. The operation (`FnMut(&mut OperationContext)
+    -> CloudResult<T>`) is a function from the context it is handed to the context it leaves behind and its
+    result; it is applied exactly once. -/
+def runWithContext {α : Type} (ctx : OperationContext)
+    (op : OperationContext → OperationContext × Res α) : Res (α × OperationContext) :=
+  match op ctx with
+  | (ctx', .ok v) => .ok (v, ctx')
+  | (_, .error e) => .error e
 
 end IB.Cloud
